@@ -13,7 +13,8 @@
 (* rest of that execution is skipped, so one TLC run judges all            *)
 (* executions; the trace is accepted iff `bad` stays empty.                *)
 EXTENDS CobsEnc, Integers, Json, IOUtils
-VARIABLES l, bad, skipb
+VARIABLES l, bad, skipb,
+          sent      \* ring sessions: messages finished so far (from the calls' arguments and answers)
 TraceLog == ndJsonDeserialize(IOEnv.TRACE)
 
 KOf(arg) == KindOf(arg.kind, arg.m, IF arg.m = 3 THEN 3 ELSE 4)
@@ -44,6 +45,14 @@ Judge(ev) ==
     [] ev.a = "grow"  -> TRUE
     [] ev.a = "term"  -> FinishOK(ev, FALSE)
     [] ev.a = "fin"   -> FinishOK(ev, TRUE)
+    \* fixed-size ring: qinit / qsend (one whole message, reader drains when full) / qflush / qend
+    [] ev.a = "qinit" -> ev.obs.ret = "ok"
+    [] ev.a = "qsend" -> \/ ev.obs.ret = "ok" /\ Admits(K, ev.arg.msg) /\ ev.obs.n = Len(ev.arg.msg)
+                         \/ ev.obs.ret = "err" /\ ~Admits(K, ev.arg.msg)
+                         \/ ev.obs.ret \in {"stuck", "skip"}      \* ring too small for the message: refusal
+    [] ev.a = "qflush" -> TRUE
+    [] ev.a = "qend"  -> /\ ev.obs.dec_guards = 1 /\ ev.obs.dec_margin < 0
+                         /\ StreamOK(K, sent, ev.obs.wire, ev.obs.decs)
     [] ev.a = "pyenc" -> LET KK == KOf(ev.arg) IN
                          IF Admits(KK, ev.arg.msg)
                          THEN ev.obs.ret = "ok" /\ TermOK(KK, ev.arg.msg, "ok", ev.obs.frame, ev.obs.decs)
@@ -52,17 +61,20 @@ Judge(ev) ==
 
 Tier2Idle == UNCHANGED <<out, run, code, cap, pre, obs>>
 Update(ev) ==
-  CASE ev.a = "einit" -> K' = KOf(ev.arg) /\ msg' = ev.arg.msg /\ acc' = 0 /\ st' = "run" /\ Tier2Idle
+  CASE ev.a = "einit" -> K' = KOf(ev.arg) /\ msg' = ev.arg.msg /\ acc' = 0 /\ st' = "run" /\ Tier2Idle /\ UNCHANGED sent
     [] ev.a = "push"  -> /\ acc' = IF ev.obs.ret = "skip" THEN acc ELSE acc + ev.obs.n
-                         /\ UNCHANGED <<K, msg, st>> /\ Tier2Idle
+                         /\ UNCHANGED <<K, msg, st, sent>> /\ Tier2Idle
     [] ev.a \in {"term", "fin"} ->
                          /\ IF ev.obs.ret = "ok" THEN st' = "done" /\ acc' = Len(msg) ELSE UNCHANGED <<st, acc>>
-                         /\ UNCHANGED <<K, msg>> /\ Tier2Idle
-    [] ev.a = "pyenc" -> K' = KOf(ev.arg) /\ msg' = ev.arg.msg /\ acc' = Len(ev.arg.msg) /\ st' = "done" /\ Tier2Idle
-    [] OTHER -> UNCHANGED vars
+                         /\ UNCHANGED <<K, msg, sent>> /\ Tier2Idle
+    [] ev.a = "pyenc" -> K' = KOf(ev.arg) /\ msg' = ev.arg.msg /\ acc' = Len(ev.arg.msg) /\ st' = "done" /\ Tier2Idle /\ UNCHANGED sent
+    [] ev.a = "qinit" -> K' = KOf(ev.arg) /\ msg' = <<>> /\ acc' = 0 /\ st' = "run" /\ Tier2Idle /\ sent' = <<>>
+    [] ev.a = "qsend" -> /\ sent' = IF ev.obs.ret = "ok" THEN Append(sent, ev.arg.msg) ELSE sent
+                         /\ UNCHANGED <<K, msg, acc, st>> /\ Tier2Idle
+    [] OTHER -> UNCHANGED <<vars, sent>>
 
 TraceInit ==
-  /\ l = 1 /\ bad = <<>> /\ skipb = -1
+  /\ l = 1 /\ bad = <<>> /\ skipb = -1 /\ sent = <<>>
   /\ K = KCobs /\ msg = <<>> /\ acc = 0 /\ st = "dead"
   /\ out = <<>> /\ run = <<>> /\ code = 0 /\ cap = 0 /\ pre = 0
   /\ obs = [a |-> "none", arg |-> [x |-> 0], exp |-> [ret |-> "any"]]
@@ -71,11 +83,11 @@ TraceNext ==
   /\ l <= Len(TraceLog)
   /\ l' = l + 1
   /\ LET ev == TraceLog[l] IN
-     IF ev.b = skipb THEN UNCHANGED <<vars, bad, skipb>>
+     IF ev.b = skipb THEN UNCHANGED <<vars, bad, skipb, sent>>
      ELSE IF Judge(ev) THEN Update(ev) /\ UNCHANGED <<bad, skipb>>
-     ELSE PrintT(<<"REJECT", l>>) /\ bad' = Append(bad, l) /\ skipb' = ev.b /\ UNCHANGED vars
+     ELSE PrintT(<<"REJECT", l>>) /\ bad' = Append(bad, l) /\ skipb' = ev.b /\ UNCHANGED <<vars, sent>>
 
-TraceSpec == TraceInit /\ [][TraceNext]_<<vars, l, bad, skipb>>
+TraceSpec == TraceInit /\ [][TraceNext]_<<vars, l, bad, skipb, sent>>
 
 \* checked on the last state: print what was read and what was rejected
 AtEnd == l > Len(TraceLog) => PrintT(<<"MATCHED", l - 1, "REJECTED", Len(bad)>>)
